@@ -1,13 +1,23 @@
 package main
 
 import (
+	"bufio"
 	"crypto/md5"
 	"encoding/binary"
+	"encoding/json"
 	"fmt"
+	"github.com/netflix/rend/consul"
 	"math/rand"
+	"net"
+	"net/http"
+	"net/http/httptest"
+	"os/exec"
 	"sort"
 	"strings"
+	"sync/atomic"
+	"syscall"
 	"time"
+	"verif/harness"
 
 	"github.com/netflix/rend/handlers/memcached/cluster"
 
@@ -488,5 +498,186 @@ func childC19(args []string) int {
 			s.Close()
 		}
 	}
+	c19Deployment(run)
 	return finish()
+}
+
+// c19Deployment: the node set as the cluster proxy really obtains and uses it. (1) the proxy
+// binary itself, started twice over the same 12 nodes listed in two orders: a key set through
+// one is found through the other and every node gets keys; (2) node discovery through Consul:
+// the same registered instances (several per host) reported in two orders give the same set of
+// addresses, one per instance.
+func c19Deployment(run *evid.Run) {
+	announceCase("cluster proxy binary")
+	bin, err := harness.BuildApp("memcached_cluster_proxy.go")
+	if err != nil {
+		run.Inconclusive(err.Error())
+	} else {
+		for _, n := range []int{3, 12} {
+			var stores []*fakemc.Store
+			var srvs []*fakemc.Server
+			var addrs []string
+			for i := 0; i < n; i++ {
+				st := fakemc.NewStore(fmt.Sprintf("pnode%d", i))
+				srv, err := fakemc.Listen(st, "tcp", "127.0.0.1:0")
+				if err != nil {
+					run.Inconclusive("cannot listen: " + err.Error())
+					return
+				}
+				stores, srvs, addrs = append(stores, st), append(srvs, srv), append(addrs, srv.Addr)
+			}
+			rev := make([]string, n)
+			for i := range addrs {
+				rev[n-1-i] = addrs[i]
+			}
+			start := func(nodes []string) (*exec.Cmd, int) {
+				port, admin := harness.FreePort(), harness.FreePort()
+				cmd := exec.Command(bin, "-p", fmt.Sprint(port), "-admin-port", fmt.Sprint(admin), "-source-hostnames", strings.Join(nodes, ","),
+					"-destination-cluster-type", "noop", "-destination-hostnames", "unused:1")
+				cmd.SysProcAttr = &syscall.SysProcAttr{Pdeathsig: syscall.SIGKILL}
+				if err := cmd.Start(); err != nil {
+					return nil, 0
+				}
+				return cmd, port
+			}
+			pa, portA := start(addrs)
+			pb, portB := start(rev)
+			stop := func() {
+				for _, c := range []*exec.Cmd{pa, pb} {
+					if c != nil {
+						c.Process.Kill()
+						c.Wait()
+					}
+				}
+				for _, s := range srvs {
+					s.Close()
+				}
+			}
+			if pa == nil || pb == nil {
+				run.Inconclusive("cannot start the cluster proxy")
+				stop()
+				continue
+			}
+			dial := func(port int) *wire.Client {
+				for try := 0; try < 200; try++ {
+					c, err := net.DialTimeout("tcp", fmt.Sprintf("127.0.0.1:%d", port), time.Second)
+					if err == nil {
+						return &wire.Client{Conn: c, R: bufio.NewReaderSize(c, 1<<16), Binary: true, Watchdog: 15 * time.Second}
+					}
+					time.Sleep(25 * time.Millisecond)
+				}
+				return nil
+			}
+			ca, cb := dial(portA), dial(portB)
+			if ca == nil || cb == nil {
+				run.Inconclusive("the cluster proxy does not accept connections")
+				stop()
+				continue
+			}
+			nk := run.Pick(300, 2000)
+			lost := 0
+			firstLost := ""
+			for i := 0; i < nk; i++ {
+				key := fmt.Sprintf("px-%d-%d", n, i)
+				w, r := ca, cb
+				if i%2 == 1 {
+					w, r = cb, ca
+				}
+				sres, e1 := w.Do(wire.Cmd{Op: "set", Key: key, Value: []byte(key + "-v"), Flags: 3, Opaque: uint32(i*2 + 1)})
+				gres, e2 := r.Do(wire.Cmd{Op: "get", Keys: []string{key}, Opaque: uint32(i*2 + 2)})
+				if e1 != nil || e2 != nil {
+					run.Inconclusive(fmt.Sprintf("cluster proxy: %v %v", e1, e2))
+					break
+				}
+				if sres.Class != "ok" || len(gres.Values) != 1 || string(gres.Values[0].Data) != key+"-v" {
+					lost++
+					if firstLost == "" {
+						firstLost = key
+					}
+				}
+			}
+			idle := 0
+			for _, st := range stores {
+				if st.LogLen() == 0 {
+					idle++
+				}
+			}
+			ca.Close()
+			cb.Close()
+			stop()
+			run.Eval(1)
+			run.Count("end_to_end_keys", int64(nk))
+			run.Count("cluster_proxy_processes", 2)
+			run.Distinct(fmt.Sprintf("deploy|proxy|%d", n))
+			if lost > 0 {
+				run.Violation("cluster|proxy binary|the same nodes listed in two orders: a key set through one proxy is not found through the other", map[string]interface{}{"nodes": n, "keys": nk, "lost": lost, "first": firstLost})
+			} else if idle > 0 {
+				run.Violation("cluster|proxy binary|a node receives no key of a large sample", map[string]interface{}{"nodes": n, "idle_nodes": idle, "keys": nk})
+			}
+		}
+	}
+
+	announceCase("consul discovery")
+	type inst struct {
+		host string
+		port int
+	}
+	var insts []inst
+	for h := 0; h < 4; h++ {
+		for k := 0; k < 1+h%3; k++ {
+			insts = append(insts, inst{fmt.Sprintf("10.0.0.%d", h+1), 11211 + k})
+		}
+	}
+	var order atomic.Value
+	order.Store(insts)
+	srv := httptest.NewServer(http.HandlerFunc(func(w http.ResponseWriter, r *http.Request) {
+		var out []map[string]interface{}
+		for i, in := range order.Load().([]inst) {
+			svcAddr := in.host
+			if i%2 == 0 {
+				svcAddr = "" // the node's address is used then
+			}
+			out = append(out, map[string]interface{}{
+				"Node":    map[string]interface{}{"Node": "n-" + in.host, "Address": in.host},
+				"Service": map[string]interface{}{"ID": fmt.Sprintf("mc-%s-%d", in.host, in.port), "Service": "memcached-cluster", "Address": svcAddr, "Port": in.port},
+				"Checks":  []interface{}{},
+			})
+		}
+		w.Header().Set("Content-Type", "application/json")
+		json.NewEncoder(w).Encode(out)
+	}))
+	defer srv.Close()
+	want := map[string]bool{}
+	for _, in := range insts {
+		want[fmt.Sprintf("%s:%d", in.host, in.port)] = true
+	}
+	rng := rand.New(rand.NewSource(run.Seed()*19 + 5))
+	for trial := 0; trial < run.Pick(6, 40); trial++ {
+		perm := append([]inst(nil), insts...)
+		rng.Shuffle(len(perm), func(i, j int) { perm[i], perm[j] = perm[j], perm[i] })
+		order.Store(perm)
+		got, err := consul.GetNodes("memcached-cluster", strings.TrimPrefix(srv.URL, "http://"), "")
+		run.Eval(1)
+		run.Count("consul_discoveries", 1)
+		run.Distinct(fmt.Sprintf("deploy|consul|%d", trial))
+		if err != nil {
+			run.Inconclusive("consul.GetNodes: " + err.Error())
+			break
+		}
+		set := map[string]bool{}
+		for _, a := range got {
+			set[a] = true
+		}
+		bad := len(set) != len(want)
+		for a := range want {
+			if !set[a] {
+				bad = true
+			}
+		}
+		if bad {
+			sort.Strings(got)
+			run.Violation("cluster|consul discovery|the node set depends on the order in which the registered instances are reported", map[string]interface{}{"registered": len(want), "discovered": got})
+			break
+		}
+	}
 }
